@@ -56,6 +56,9 @@ var c16Progs = []string{
 	`func outer(p) func inner(q) p*q+x; inner(y); outer(z)`,
 	`true & x<y | false`,
 	`sqrt(16)+x`,
+	// attributes whose names differ only in letter case from constants, static functions, locals and parameters
+	`Pi*x+pi*0`, `Max-min(x,y)+max(1,2)+Min`, `let t=x; T+t`, `(x->x+X)(y)+x`, `func k(X) X+x; k(y)+X`, `Pi+(pi->pi+Pi)(x)`, `let max=x; max+Max`, `(T->T+x)(y)+T`,
+	`func rec(N) if N<=0 then T else rec(N-1)+X; rec(2)`,
 }
 
 var c16Reps = []string{"lit", "put", "merge", "replace", "eval"}
@@ -142,6 +145,13 @@ func c16Run(job string) {
 		m = eval(mustGen(fg, `{x:0,y:0,z:c,f:d}.replace(o->{x:a,y:b})`, "a", "b", "c", "d"), x, y, z, fclo).v
 	default:
 		m = eval(mustGen(fg, `({x:a,y:b}+{z:c,f:d}).eval()`, "a", "b", "c", "d"), x, y, z, fclo).v
+	}
+	// attributes that differ from other names only in letter case
+	if mm := eval(mustGen(fg, `m+{Pi:b,Max:c,Min:a,X:b,T:a}`, "m", "a", "b", "c"), m, x, y, z); mm.ok() {
+		m = mm.v
+	} else {
+		sym.Assert(false, "extended-map-builds")
+		return
 	}
 	ast, err := vparse(prog)
 	if err != nil {
